@@ -6,6 +6,7 @@ import Spine.C19
 import Spine.RndSound
 import Spine.C19Exec
 import Spine.DurTextThm
+import Spine.C19Wide
 /-!
 # C19 — numeric and temporal conversions are exact within their declared precision
 
@@ -201,6 +202,76 @@ theorem c19_scaled_exact_needs_bound :
 
 /-- non-vacuity: 2^53 + 1 is not below the bound of `ScaledExact`, 2^50 - 1 is -/
 example : ¬ ((2 ^ 53 + 1 : Int).natAbs < 2 ^ 50) ∧ (2 ^ 50 - 1 : Int).natAbs < 2 ^ 50 := by decide
+
+
+/-- is the decimal `k * 10^-d` converted to a pair that denotes it? (decidable form of `ScaledExact` at one point) -/
+def exactAt (cfg : Cfg) (k : Int) (d : Nat) : Bool :=
+  (newScaled cfg (parseDec k d)).1 * 10 ^ d == k * 10 ^ (-(newScaled cfg (parseDec k d)).2).toNat
+
+/-- THE LEAST DECIMALS THAT DO NOT SURVIVE, per number of fractional digits (repaired member; found by a directed
+    search with the error analysis, kernel-checked here, replayed on the real code on every run — known finding
+    `decimal-from-least-failing-on`): the conversion first fails where `v = k * 10^-d` crosses a power of two
+    inside `2^51 ≤ k < 2^53`, because there the rounding error of `v`, multiplied by `10^d`, reaches a quarter
+    (half) of the spacing of doubles at `k`:
+    * d = 1: `562949953421312.3` (`k = 10 * 2^49 + 3`) comes back as `…312.2` (it IS the same double as `…312.2`:
+      the first colliding pair);
+    * d = 2: `35184372088832.02` (`k = 100 * 2^45 + 2`) comes back as `…832.03`;
+    * d = 3: `4398046511104.021` (`k = 1000 * 2^42 + 21`) comes back as `…104.022`;
+    * d = 4: `274877906944.0004` (`k = 10^4 * 2^38 + 4`) comes back as `…944.0005`;
+    and every decimal from the power of two up to the witness is still exact. Below the power of two
+    (`k < 10^d * 2^E`, `E = 49, 45, 42, 38`) the product `v * 10^d` is within 1/4 of `k` (`10^d * ulp(v) / 2 < 1/4`
+    for `d = 2, 3, 4`; for `d = 1` within 1/4 with ties resolved to the even `k` below `2^52`, within 1/2 above) —
+    an error analysis, not a theorem (the proved bound stays 2^50); the harness searches that region on the real
+    code on every run (the first values of every segment between powers of two of `k` and of `v`, and random
+    decimals). -/
+theorem c19_scaled_exact_least_failures :
+    newScaled .repaired (parseDec 5629499534213123 1) = (5629499534213122, -1) ∧
+    parseDec 5629499534213123 1 = parseDec 5629499534213122 1 ∧
+    newScaled .repaired (parseDec 3518437208883202 2) = (3518437208883203, -2) ∧
+    newScaled .repaired (parseDec 4398046511104021 3) = (4398046511104022, -3) ∧
+    newScaled .repaired (parseDec 2748779069440004 4) = (2748779069440005, -4) ∧
+    (∀ i : Fin 3, exactAt .repaired (10 * 2 ^ 49 + i.val) 1 = true) ∧
+    (∀ i : Fin 2, exactAt .repaired (100 * 2 ^ 45 + i.val) 2 = true) ∧
+    (∀ i : Fin 21, exactAt .repaired (1000 * 2 ^ 42 + i.val) 3 = true) ∧
+    (∀ i : Fin 4, exactAt .repaired (10000 * 2 ^ 38 + i.val) 4 = true) := by decide +kernel
+
+/-- non-vacuity: the witnesses are where the doc comment says, below 2^53, above the proved bound 2^50; `exactAt`
+    is false at each of them and true at 0.29 -/
+example : (5629499534213123 : Int) = 10 * 2 ^ 49 + 3 ∧ (3518437208883202 : Int) = 100 * 2 ^ 45 + 2 ∧
+    (4398046511104021 : Int) = 1000 * 2 ^ 42 + 21 ∧ (2748779069440004 : Int) = 10000 * 2 ^ 38 + 4 ∧
+    (5629499534213123 : Int) < 2 ^ 53 ∧ (2 : Int) ^ 50 < 2748779069440004 ∧
+    exactAt .repaired 5629499534213123 1 = false ∧ exactAt .repaired 3518437208883202 2 = false ∧
+    exactAt .repaired 4398046511104021 3 = false ∧ exactAt .repaired 2748779069440004 4 = false ∧
+    exactAt .repaired 29 2 = true ∧ exactAt .asWritten 29 2 = false := by decide +kernel
+
+/-- the arithmetic heart of that error analysis AS A THEOREM over the rounding relation, with NO bound on the
+    numerator: if `m * 2^-E` is the double nearest to `j / T` and `m' * 2^-E'` the double nearest to that double times
+    `T`, then `math.Round` of the latter is `j` whenever `2^E + T * 2^E' < 2^E * 2^E'` (the error of `v` times `T` plus
+    the error of the product stay below one half: `T / 2^E + 1 / 2^E' < 1`). Below the power of two of the witnesses
+    the exponents are `E ≥ 8, 11, 15` (d = 2, 3, 4), `E' ≥ 1`, and the condition holds; at the witnesses `E` drops by
+    one and it fails. (What stays an argument: that the binade of `v` and of the product give these exponents, and
+    the count of decimals; `d = 1` needs the finer analysis of ties.) -/
+theorem c19_round_recovers_wide (j T m m' E E' : Nat) (hab : 2 ^ E + T * 2 ^ E' < 2 ^ E * 2 ^ E')
+    (h1 : IsRnd j T m (-(E : Int))) (h2 : IsRnd (m * T) (2 ^ E) m' (-(E' : Int))) :
+    roundHalfUp m' E' = j := Rnd.c19_round_recovers_wide j T m m' E E' hab h1 h2
+
+/-- non-vacuity: the last decimal below the power of two for d = 2 (`100 * 2^45 - 1`, far above 2^50) satisfies the
+    hypotheses with `E = 8`, `E' = 1`; so do the ones for d = 3 (`E = 11`) and d = 4 (`E = 15`); at the witness
+    `100 * 2^45 + 2` the exponent is 7 and the condition is false -/
+example : (2 : Nat) ^ 50 < 100 * 2 ^ 45 - 1 ∧
+    IsRnd (100 * 2 ^ 45 - 1) 100 9007199254740989 (-(8 : Nat)) ∧
+    IsRnd (9007199254740989 * 100) (2 ^ 8) 7036874417766398 (-(1 : Nat)) ∧
+    2 ^ 8 + 100 * 2 ^ 1 < 2 ^ 8 * 2 ^ 1 ∧ 2 ^ 11 + 1000 * 2 ^ 1 < 2 ^ 11 * 2 ^ 1 ∧ 2 ^ 15 + 10000 * 2 ^ 1 < 2 ^ 15 * 2 ^ 1 ∧
+    IsRnd (100 * 2 ^ 45 + 2) 100 4503599627370499 (-(7 : Nat)) ∧ ¬ (2 ^ 7 + 100 * 2 ^ 1 < 2 ^ 7 * 2 ^ 1) := by
+  decide +kernel
+
+/-- the witnesses and the member: the first one (a collision of two decimals in one double) is lost by every
+    member; the other three are artefacts of `math.Round` on a product that lies exactly half a unit above `k`
+    — truncation happens to keep them (and loses 0.29 instead); the sign is immaterial (`c19_sign_symmetry`) -/
+theorem c19_scaled_exact_least_failures_members :
+    exactAt .asWritten 5629499534213123 1 = false ∧ exactAt .asWritten 3518437208883202 2 = true ∧
+    exactAt .asWritten 4398046511104021 3 = true ∧ exactAt .asWritten 2748779069440004 4 = true ∧
+    exactAt .repaired (-3518437208883202) 2 = false := by decide +kernel
 
 /-! ## 4. Clause (b): within 0.0001 below 2^53 / 10^4 — and not above -/
 
